@@ -475,7 +475,8 @@ def coq_source(spec, cases, traces, twins):
         defs.append("Definition V := Eval vm_compute in viol13_from 0 all13.")
     elif twins is not None:
         for i, (tc, tt, perm) in enumerate(twins):
-            obs = emit.lst([emit.oobs(o, tc["ops"][j]["op"] == "bad") for j, o in enumerate(tt["ops"])])
+            tbad = emit.bad_flags(tc)
+            obs = emit.lst([emit.oobs(o, tbad[j]) for j, o in enumerate(tt["ops"])])
             defs.append(f"Definition t{i} : list oobs := {obs}.")
             defs.append(f"Definition p{i} : list nat := {emit.lst([str(x) for x in perm])}.")
         pairs = emit.lst([f"(c{i}, (t{i}, p{i}))" for i in range(len(cases))])
